@@ -100,7 +100,8 @@ struct inner_product_impl< Eigen::Matrix<T, N, 1> >
 {
     typedef T return_type;
     static T get(const Eigen::Matrix<T, N, 1> &x, const Eigen::Matrix<T, N, 1> &y) {
-        return x.adjoint() * y;
+        // sum_i x(i) * conj(y(i)), as for scalars and static matrices.
+        return y.dot(x);
     }
 };
 
@@ -111,7 +112,8 @@ struct inner_product_impl< Eigen::Matrix<T, N, M> >
     typedef Eigen::Matrix<T, M, M> return_type;
 
     static return_type get(const Eigen::Matrix<T, N, M> &x, const Eigen::Matrix<T, N, M> &y) {
-        return x.adjoint() * y;
+        // p(i,j) = sum_k x(k,i) * conj(y(k,j)), as for static matrices.
+        return x.transpose() * y.conjugate();
     }
 };
 
